@@ -516,8 +516,9 @@ def model_jobs(tr):
                          min_states=min_states, workers=workers))
     ns = [2, 3, 4]
     job("all-r2", "every round function, n in {2,3,4}, 2 rounds", mc_cfg("all", ns, 2, invs=THMS_NET), expect_all(ns, 2))
-    ns4 = [2, 3]
-    job("all-r4", "every round function, n in {2,3}, 4 rounds", mc_cfg("all", ns4, 4, invs=THMS_NET), expect_all(ns4, 4))
+    ns4 = [2] if quick else [2, 3]
+    job("all-r4", "every round function, n in {%s}, 4 rounds" % ",".join(map(str, ns4)), mc_cfg("all", ns4, 4, invs=THMS_NET),
+        expect_all(ns4, 4))
     sn = list(range(2, 9)) if quick else list(range(2, 11))
     sk = 40 if quick else 300
     job("sample-r10", "%d drawn round functions per n in %d..%d, 10 rounds" % (sk, sn[0], sn[-1]),
@@ -548,6 +549,9 @@ def model_jobs(tr):
 
 def run_model(tr):
     jobs = model_jobs(tr)
+    if os.environ.get("VERIF_C15_NO_MODEL"):        # debugging aid for mutation runs; the evidence then shows states = 0
+        print("C15: model instances skipped (VERIF_C15_NO_MODEL)")
+        jobs = []
     scratch()
     res = {}
     errs = []
